@@ -297,5 +297,39 @@ def run(ctx):
                 if got != want:
                     wrong.append('step=%g, model event in %g: the step is %s' % (tdv, nev, 'replaced' if got else 'kept'))
         ctx.check(not wrong, 'R7', 'solve(): time_delta = next_event iff next_event >= 0 and (time_delta < 0 or next_event < time_delta)', where(solve, upd[0].line), '; '.join(wrong[:4]), key='R7|solve|model event minimum')
+    run_units(ctx, P, A)
     ctx.assume('the value of next_occurring_event of the models (what time_delta is) and sub-precision behaviour are not decided')
     return EXPLANATION
+
+
+def run_units(ctx, P, A):
+    """R8: dates and durations in the clock computation (P20 with an affine base)"""
+    from .. import dims
+    ctx.rule('R8', 'EngineImpl::solve and run: now_, max_date, the next timer date and the next profile event date are dates, time_delta / elapsed_time and what the models '
+             'return are durations; date - date = duration, date + duration = date; the clock advances by a duration, timers are keyed by dates', 12)
+    KQ = 'simgrid::kernel::'
+    D = dims.Dims(('second', '@date'), {})
+    u = D.unit
+    S, DATE = u(second=1), u(second=1, **{'@date': 1})
+    D.fields = {KQ + 'EngineImpl::now_': DATE, KQ + 'timer::Timer::date_': DATE}
+    D.getters = {KQ + 'profile::FutureEvtSet::next_date': DATE, KQ + 'timer::Timer::next': DATE, KQ + 'timer::Timer::get_date': DATE, KQ + 'EngineImpl::solve': S,
+                 KQ + 'EngineImpl::get_clock': DATE, 'simgrid::s4u::Engine::get_clock': DATE}
+    D.arg_units = {KQ + 'EngineImpl::solve': {0: DATE}, KQ + 'timer::Timer::set': {0: DATE}, KQ + 'profile::FutureEvtSet::pop_leq': {0: DATE}}
+    D.param_units = {(KQ + 'EngineImpl::solve', 'max_date'): DATE, (KQ + 'EngineImpl::run', 'max_date'): DATE, (KQ + 'timer::Timer::set', 'date'): DATE, (KQ + 'timer::Timer::Timer', 'date'): DATE}
+    D.ret_units = {KQ + 'EngineImpl::solve': S}
+    D.globals_one = {'sg_precision_timing': S}
+    # the non-idempotent (ns-3) model is handed the step instead of a date, and its answer is taken as the new step: both are durations
+    D.getters[KQ + 'resource::Model::next_occurring_event'] = S
+    fns = sorted([f for f in P.fns.values() if f.get('blocks') and f['q'] in (KQ + 'EngineImpl::solve', KQ + 'EngineImpl::run', KQ + 'timer::Timer::set', KQ + 'timer::Timer::execute_all', KQ + 'timer::Timer::next')],
+                 key=lambda f: f['key'])
+    ctx.require(len(fns) >= 3, 'R8', 'solve/run/Timer functions not found (%d)' % len(fns))
+    D.run(A, fns)
+    for r in D.decided:
+        ctx.holds('R8', '%s: %s %s %s' % (r['fn'].replace(KQ, ''), r['a'][:70], r['what'], r['b'][:70]), '', '[%s]' % D.show(r['da']))
+    for r in D.conflicts:
+        f = [x for x in fns if x['q'] == r['fn']][0]
+        ctx.violation('R8', '%s: %s %s %s' % (r['fn'].replace(KQ, ''), r['a'][:70], r['what'], r['b'][:70]), where(f, r['line']),
+                      'left side is a %s, right side a %s' % ('date' if r['da'][-1] else 'duration', 'date' if r['db'][-1] else 'duration') if len(r['da']) == 2 and len(r['db']) == 2 else 'units differ',
+                      key='R8|%s|%s %s %s' % (r['fn'].rsplit('::', 1)[-1], r['a'][:60], r['what'], r['b'][:60]))
+    for frag in ('now_', 'max_date', 'next_event_date'):
+        ctx.require(any(frag in r['a'] or frag in r['b'] for r in D.decided + D.conflicts), 'R8', 'no decided site mentions %s' % frag)
